@@ -29,6 +29,7 @@ Shapes == {
   <<"ident", Obj(<< <<"props", UP>>, <<"name", UN>> >>)>>,                 \* o
   <<"ident_empty", Obj(<<>>)>>,                                            \* e
   <<"call", Obj(<< <<"emits", UE>> >>)>>,                                  \* mk()
+  <<"nested", Obj(<<>>)>>,                                                 \* { components: { Row: defineComponent((p: { b?: string }) => () => null) } }
   <<"spread_args", Obj(<< <<"props", UP>> >>)>>,                           \* defineComponent(...args)
   <<"nonfn_first", Null>>                                                  \* defineComponent({ setup() {…}, props: ['u'] })
 }
